@@ -85,6 +85,33 @@ theorem witness_verifies (H : Bytes → Bytes) (hlen : ∀ x, (H x).length = 32)
     have : ¬ slot ≥ a.roots.length := by omega
     simp [this, h2]
 
+/-- **C27 (the witness returned by `AddHash`/`AddData` verifies).** After any appends, the
+    witness returned when one more item is appended is accepted by `Verify` for that item's
+    hash against the new roots. -/
+theorem add_witness_verifies (H : Bytes → Bytes) (hlen : ∀ x, (H x).length = 32)
+    (items : List Item) (hv : ∀ it ∈ items, it.Valid) (it : Item) (hit : it.Valid) :
+    let r := (addAll H {} items).addNode H (it.node H)
+    r.1.verify H r.2 (it.leafHash H) = .ok := by
+  intro r
+  obtain ⟨hinv, _⟩ := addAll_inv H items hv {} [] (by simp [RootsInv]) rfl
+  simp only [List.nil_append] at hinv
+  obtain ⟨wk, t', e1, e2, e3, e4⟩ := addNode_witness H hlen (addAll H {} items).roots 0 _ (it.node H)
+    [it.leafHash H] [] hinv (item_isTree H it hit)
+  have hleafeq : (it.node H).hashOf = it.leafHash H := by cases it <;> rfl
+  have hleaf : (it.leafHash H).length = 32 := by
+    rw [← hleafeq]; exact (item_isTree H it hit).hashLen hlen
+  simp only [List.nil_append] at e1
+  have hw : r.2 = wk := e1
+  have hroots : r.1.roots = (addNode H (addAll H {} items).roots (it.node H) []).1 := rfl
+  simp only [Acc.verify, hw, verifyFold_eq H hlen wk e2 _ hleaf, hroots]
+  have hslot : wk.length < (addNode H (addAll H {} items).roots (it.node H) []).1.length := by
+    rcases Nat.lt_or_ge wk.length (addNode H (addAll H {} items).roots (it.node H) []).1.length with h | h
+    · exact h
+    · rw [List.getElem?_eq_none h] at e3; cases e3
+  have : ¬ wk.length ≥ (addNode H (addAll H {} items).roots (it.node H) []).1.length := by omega
+  rw [hleafeq] at e4
+  simp [this, e3, e4]
+
 /-- `AddHash`/`AddData` never decrease what can be proved: the length is the number of items. -/
 theorem length_eq (H : Bytes → Bytes) (items : List Item) (hv : ∀ it ∈ items, it.Valid) :
     (addAll H {} items).length = items.length := by
